@@ -61,6 +61,38 @@ type c13Case struct {
 	Enforced   int    `json:"enforced_minor"` // -1: not enforced
 	// PriorMask: (library executor only) another client with this set connects to the same server first
 	PriorMask int `json:"prior_client_set_mask,omitempty"`
+	// Options: how the client set is handed over: one WithKmipVersions option per inner list (minor numbers, in this order).
+	// Empty: a single option listing the set in ascending order.
+	Options [][]int `json:"client_options,omitempty"`
+}
+
+// optionLayouts returns ways of passing the same set through WithKmipVersions (all equivalent per the option's contract:
+// the options accumulate into one set).
+func optionLayouts(mask int) [][][]int {
+	var minors []int
+	for i := 0; i < 5; i++ {
+		if mask&(1<<i) != 0 {
+			minors = append(minors, i)
+		}
+	}
+	n := len(minors)
+	desc := make([]int, n)
+	for i, m := range minors {
+		desc[n-1-i] = m
+	}
+	out := [][][]int{{desc}}
+	if n >= 2 {
+		var each [][]int
+		for _, m := range minors {
+			each = append(each, []int{m})
+		}
+		out = append(out, each)                                  // one option per version, ascending
+		out = append(out, [][]int{minors[:n/2], minors[n/2:]})   // lower half first, then the upper half
+		out = append(out, [][]int{desc[:1], desc[1:], desc[:1]}) // highest first, the rest, a duplicate
+		rot := append(append([]int{}, minors[1:]...), minors[0])
+		out = append(out, [][]int{rot[:1], rot[1:]})
+	}
+	return out
 }
 
 type negServer struct {
@@ -165,13 +197,24 @@ func c13Run(c c13Case) (sig string, err error) {
 		srv.discovers, srv.versions = 0, nil
 		srv.mu.Unlock()
 	}
-	opts := []kmipclient.Option{kmipclient.WithKmipVersions(append([]kmip.ProtocolVersion{}, clientSet...)...),
+	var opts []kmipclient.Option
+	if len(c.Options) == 0 {
+		opts = append(opts, kmipclient.WithKmipVersions(append([]kmip.ProtocolVersion{}, clientSet...)...))
+	}
+	for _, l := range c.Options {
+		var vs []kmip.ProtocolVersion
+		for _, m := range l {
+			vs = append(vs, allVersions[m])
+		}
+		opts = append(opts, kmipclient.WithKmipVersions(vs...))
+	}
+	opts = append(opts,
 		kmipclient.WithDialerUnsafe(func(ctx context.Context) (net.Conn, error) {
 			a, b := memnet.Pipe()
 			conns = append(conns, a, b)
 			go srv.serve(b)
 			return a, nil
-		})}
+		}))
 	var enforced *kmip.ProtocolVersion
 	if c.Enforced >= 0 {
 		v := allVersions[c.Enforced]
@@ -280,7 +323,7 @@ func c13Run(c c13Case) (sig string, err error) {
 func TestC13Negotiation(t *testing.T) {
 	const name = "TestC13Negotiation"
 	rec := evid.New("C13", name, "exhaustive: 31 non-empty client sets x 32 server sets x 6 server behaviours (conformant descending intersection, discovery unsupported, lists versions not offered, unordered list, empty list, the library's own BatchExecutor restricted to the set, also after an earlier client with another set has negotiated with the same executor) without enforcement, "+
-		"plus 31 x 32 x 5 enforced versions against the conformant server; each followed by two requests and a clone; oracle: pure function of the configuration (highest common version / fallback to 1.0 / failure); "+
+		"plus the same client set handed over through up to five other option layouts (descending, one WithKmipVersions option per version, two halves, highest first with a duplicate, rotated) against the conformant, unordered and library servers, plus 31 x 32 x 5 enforced versions against the conformant server; each followed by two requests and a clone; oracle: pure function of the configuration (highest common version / fallback to 1.0 / failure); "+
 		"non-trivial = the intersection has >= 2 elements, or the server lists a version outside the client's set, or the list is unordered; distinct by case").Attach(t)
 	rec.Exhaustive(true)
 	if rp := evid.LoadReplay(name); rp != nil {
@@ -323,6 +366,14 @@ func TestC13Negotiation(t *testing.T) {
 			for _, prior := range []int{0b00110, 0b01010} {
 				if !run(c13Case{ClientMask: cm, ServerMask: sm, Behaviour: bLibraryExec, Enforced: -1, PriorMask: prior}) {
 					return
+				}
+			}
+			// the same client set handed over through other option layouts
+			for _, lay := range optionLayouts(cm) {
+				for _, b := range []string{bConformant, bUnordered, bLibraryExec} {
+					if !run(c13Case{ClientMask: cm, ServerMask: sm, Behaviour: b, Enforced: -1, Options: lay}) {
+						return
+					}
 				}
 			}
 			for e := 0; e < 5; e++ {
